@@ -112,8 +112,8 @@ func (f *flowGen) breakPhase() {
 		// causal aim: an observer subscribes when the target reaches this point, and the stream
 		// breaks as soon as that observer got somewhere (e.g. its first update: the collector is
 		// probably still walking its cache for it)
-		ev := rapid.SampledFrom([]string{"first", "first", "first", "dialed", "dialed", "dialed", "start", "sync"}).Draw(t, "event")
-		if rapid.IntRange(0, 3).Draw(t, "settle") > 0 {
+		ev := rapid.SampledFrom([]string{"first", "first", "first", "first", "dialed", "start", "sync"}).Draw(t, "event")
+		if rapid.IntRange(0, 5).Draw(t, "settle") > 0 {
 			// first let the collector take in what was sent so far (an early observer has seen a tick
 			// sent now): the break then reaches it as fast as the wire allows, not behind a backlog
 			g.serial++
@@ -180,7 +180,7 @@ func genFlowScenario(t *rapid.T, p flowParams) *Scenario {
 	}
 	fills := []int{0, 0, 0, 40, 300}
 	if p.profile == "break" {
-		fills = []int{0, 300, p.maxFill / 3, p.maxFill / 2, p.maxFill, p.maxFill, p.maxFill}
+		fills = []int{0, 300, p.maxFill / 2, p.maxFill, p.maxFill, p.maxFill}
 	}
 	if n := rapid.SampledFrom(fills).Draw(t, "fill"); n > 0 {
 		g.emit(Op{Kind: "fill", N: n})
